@@ -10,7 +10,7 @@
 //	       hard links to themselves / to nothing, symlink loops, device nodes
 //	gzip   trailing garbage, concatenated empty members, wrong CRC / ISIZE, FEXTRA / FNAME /
 //	       FCOMMENT / FHCRC / reserved flag bits, truncated deflate, a bounded bomb (32 MiB)
-//	yaml   alias bombs, deep nesting, merge keys, cyclic and long include chains, huge and
+//	yaml   alias bombs, deep nesting, merge keys, cyclic (refused since fix 43ae291) and long include chains, huge and
 //	       fractional numbers, wrong node kinds, tags, duplicate keys, NUL / BOM, many documents
 //	json   huge numbers, deep nesting, wrong types, nulls, duplicate keys, invalid UTF-8
 //	oci    index.json / manifest / config blobs with hostile digests, sizes, media types
@@ -702,11 +702,7 @@ func decoderReaders() map[string]func(c dcase) error {
 		if err != nil {
 			return err
 		}
-		for _, f := range files {
-			if filepath.Clean(f.Name) == "." {
-				return nil // the replay of finding C15-F4 (stage readers, child probes): not repeated here
-			}
-		}
+		// entries that clean to "." included (fix f716198: sortTarHeaders skips them; before it: finding C15-F4)
 		if err := a.AddInstalledPackage(p, files); err != nil {
 			return err
 		}
@@ -992,6 +988,11 @@ func runDecoders(dir string, seed uint64, tier string) error {
 		}
 		if r.ms > 1000 {
 			slow = append(slow, fmt.Sprintf("%s/%s %dms", c.reader, c.kind, r.ms))
+		}
+		// an include cycle must be refused (fix 43ae291; before it: finding C15-F6, the load never came back)
+		if c.reader == "ImageConfiguration.Load" && (c.kind == "include-self" || c.kind == "include-self-relative" || c.kind == "include-cycle-2" || c.kind == "include-cycle-3") && r.class == ckOk {
+			j, _ := json.Marshal(map[string]any{"reader": c.reader, "kind": c.kind, "what": "a configuration whose include chain leads back to itself was loaded without an error"})
+			fmt.Printf("IMPL-VIOLATION tag=include-cycle-accepted-ImageConfiguration.Load %s\n", j)
 		}
 		if (r.class == ckPanic && !strings.HasPrefix(r.what, "process died")) || r.class == ckHang {
 			tag := "panic-" + c.reader + "/" + panicKind(r.what, c.data)
